@@ -531,7 +531,7 @@ fn run_one(scn: &Scn, g: &Guest, seed: u64) -> ExecResult {
     let mut cfg = shuttle::Config::new();
     cfg.stack_size = 1 << 20;
     cfg.failure_persistence = shuttle::FailurePersistence::None;
-    cfg.max_steps = shuttle::MaxSteps::FailAfter(3_000_000);
+    cfg.max_steps = shuttle::MaxSteps::FailAfter(30_000_000);
     cfg.silence_warnings = true;
     let _ = take_panic();
     let r = std::panic::catch_unwind(std::panic::AssertUnwindSafe(|| {
@@ -704,6 +704,8 @@ impl Property for C18N {
                 }
             }
         }
+        let chunks_len = chunks.len();
+        let out_bytes: usize = guest.blocks.iter().map(|b| if let Block::Write { text, .. } = b { 2 * text.len() + 8 } else { 24 }).sum();
         // a quarter of the runs have a bounded stream buffer towards the controller; one in eight of those has a
         // controller that stops reading for 2.2-3.5 simulated seconds somewhere in the stream
         let sock_cap = if rng.chance(1, 4) { *rng.pick(&[1usize, 3, 8, 32, 128, 1024]) } else { 0 };
@@ -723,7 +725,10 @@ impl Property for C18N {
             pct_depth: 0,
             sched_seed: rng.next_u64(),
             sched_tries: 1,
-            step_cap: 40_000,
+            // ends a run whose stop got lost. It is a bound on the run loop's iterations, so it has to grow with the work
+            // the OTHER threads must get done in the meantime (every iteration is one scheduling step of five or so
+            // runnable threads): the controller's writes, and an outgoing stream squeezed through a small buffer
+            step_cap: 40_000 + 100 * chunks_len as u64 + if sock_cap > 0 { 40 * out_bytes as u64 / sock_cap.min(64) as u64 } else { 0 },
         }
     }
 
